@@ -11,6 +11,7 @@ library would remove a stale marker (op `breakMarker`).
 After EVERY operation the result/exception enum and the parsed content of cluster_config.json, config_version.txt,
 job_status.json, job_status_version.txt (+ `.bk` files, + the lock marker) are compared with the Lean driver.
 """
+import hashlib
 import json
 import os
 import socket
@@ -231,14 +232,12 @@ class ClusterSuite(Suite):
             if res in ("ok", {"bool": True}, {"bool": False}) and not after["marker"] and after["cfg"] is not None:
                 st = self._status(out)
                 o["status"] = st
-                o["prev_status"] = prev_status
-                prev_status = st
             step = {"res": res, "disk": after}
             if summary is not None:
                 step["summary"] = summary
             steps.append(step)
             obs.append(o)
-        return {"model": {"init": init, "steps": steps}, "obs": {"steps": obs}}
+        return {"model": {"init": init, "steps": steps}, "obs": {"steps": obs, "init_status": prev_status}}
 
     def _status(self, out):
         """Cluster.deserialize(dir, deserialize_jobs=True)[0].get_status_summary(include_jobs=True) + the version files"""
@@ -252,8 +251,8 @@ class ClusterSuite(Suite):
         s["jsVersion"] = c.job_status.version
         s["cfgVerFile"] = int((out / "config_version.txt").read_text().strip())
         s["jsVerFile"] = int((out / "job_status_version.txt").read_text().strip())
-        s["cfgBytes"] = (out / "cluster_config.json").read_text()
-        s["jsBytes"] = (out / "job_status.json").read_text()
+        s["cfgBytes"] = hashlib.sha1((out / "cluster_config.json").read_bytes()).hexdigest()[:12]
+        s["jsBytes"] = hashlib.sha1((out / "job_status.json").read_bytes()).hexdigest()[:12]
         return s
 
     def _do(self, op, x, handles, out, case):
@@ -340,7 +339,11 @@ class ClusterSuite(Suite):
         steps = result.get("model", {}).get("steps", [])
         obs = (result.get("obs") or {}).get("steps", [])
         tainted = False
+        last_status = (result.get("obs") or {}).get("init_status")
         for i, (op, st, o) in enumerate(zip(case["ops"], steps, obs)):
+            prev_status = last_status
+            if o.get("status") is not None:
+                last_status = o["status"]
             k, res = op["k"], st["res"]
             where = f"op #{i} {k} h={op.get('h')}"
             success = res in ("ok", {"bool": True})
@@ -357,6 +360,11 @@ class ClusterSuite(Suite):
                     v.append(Violation("C10", "promote.while_held", f"{where}: promoted although host{o['submitter_before']} holds the role"))
                 if o["changed"]:
                     v.append(Violation("C10", "promote.refused_but_wrote", f"{where}: refused promotion changed {o['changed']}"))
+            # ---- C10 (b'): the code's own guard — only a handle on the submitter's host can clear the role
+            if k == "demote" and res == "ok" and not o["forged_before"]:
+                if o["submitter_before"] in (None, "missing") or hostname(o["submitter_before"]) != o.get("handle_host"):
+                    v.append(Violation("C10", "demote.foreign_host", f"{where}: handle on {o.get('handle_host')} cleared the role "
+                                       f"of submitter {o['submitter_before']!r}"))
             # ---- C10 (c): a write by a stale handle is rejected with a version mismatch and leaves the files untouched
             if "cfg_stale" in o and not (o["marker_before"] and k != "prepareResubmit"):
                 stale_cfg = o["cfg_stale"] and k in CFG_WRITERS
@@ -381,14 +389,18 @@ class ClusterSuite(Suite):
             if s is not None and o["wellformed_after"] and not tainted:
                 if k == "prepareResubmit":
                     bad = self._c09_state(where, s)
-                    if bad:
-                        # known defect 9.7: everything that follows is a consequence of this state
+                    p = prev_status or {"jobs": []}
+                    left = [j for j, job in enumerate(p["jobs"]) if job["state"] == "not_submitted" and j not in op["sel"]]
+                    if bad and left and self._only_unselected_counted(s, len(left)):
+                        # known defect 9.7 (and nothing else is wrong): everything that follows is a consequence of this state
                         tainted = True
                         v.append(Violation("C09", "resubmit.unselected_not_submitted_counted",
-                                           f"after prepare_for_resubmission(sel={op['sel']}) while other jobs were never submitted: " + bad[0].msg))
+                                           f"after prepare_for_resubmission(sel={op['sel']}) while jobs {left} were never submitted: " + bad[0].msg))
+                    else:
+                        v += bad
                     continue
                 v += self._c09_state(where, s)
-                p = o.get("prev_status")
+                p = prev_status
                 if p is not None:
                     v += self._c09_mono(where, p, s)
         # version monotonicity over the whole run (no forging)
@@ -430,6 +442,16 @@ class ClusterSuite(Suite):
         if s["cfgVersion"] != s["cfgVerFile"] or s["jsVersion"] != s["jsVerFile"]:
             v.append(Violation("C09", "status.version_files", f"{where}: version inside a file differs from its version file"))
         return v
+
+    @staticmethod
+    def _only_unselected_counted(s, nleft):
+        """the status is off exactly by `submitted` counting the `nleft` unselected never-submitted jobs"""
+        n = s["numJobs"]
+        submitted = n - s["notSubmitted"]
+        done = sum(1 for j in s["jobs"] if j["state"] == "done")
+        sub = sum(1 for j in s["jobs"] if j["state"] in ("submitted", "done"))
+        return (s["completed"] == done and submitted == sub + nleft and not any(j["blockedBy"] for j in s["jobs"] if j["state"] != "not_submitted")
+                and s["cfgVersion"] == s["cfgVerFile"] and s["jsVersion"] == s["jsVerFile"])
 
     @staticmethod
     def _c09_mono(where, p, s):
